@@ -7,7 +7,7 @@ def run(tier, seed, update_ledger=False, only=None, jobs=None):
     hs = [h for h in hs if not only or only in h.hid]
     return run_check("C11", hs, tier=tier, seed=seed, update_ledger=update_ledger, jobs=jobs,
                      unbounded_in=["all parameter values (under the stated non-degeneracy preconditions)", "all inputs"],
-                     bounded_in={"features": "1..2 quick / 1..3 thorough", "householder count": "1..2 (symbolic proofs; products of 3 and more reflections stay unknown to z3 and are not claimed); constructor grid up to 7 / 10",
+                     bounded_in={"features": "1..2 quick / 1..3 thorough (LULinear 1..4)", "householder count": "1..2 quick; thorough also Householder products (D,K) = (3,3), (4,2), (5,2) (ring tactic); longer products exceed the ring time limit and are not claimed; constructor grid up to 7 / 10",
                                  "constructor grid": "features <= 3 (4), num_householder <= 7 (10): bounded enumeration of configurations, evaluated natively"},
                      assumptions=["torch.slogdet / torch.inverse / torch.lu / torch.lu_solve contracts (determinant by cofactors, adjugate inverse)",
                                   "precondition of the Householder product: no reflection vector is zero; of NaiveLinear: det(weight) != 0",
